@@ -203,6 +203,31 @@ Definition pin_b : pinref := PTop (s2l "b") 0.
 Definition pin_c : pinref := PTop (s2l "c") 0.
 Definition pin_d : pinref := PTop (s2l "d") 0.
 Definition pin_i0 : pinref := PInst 0 (s2l "I") 0.
+(* net names that merely CONTAIN the text unconn (rx_unconnected, __vpr__unconn3) next to the placeholder
+   itself: as an operand and as the output of .names, as the actual of a .gate pin.  Before the repair of
+   parse_name (`"unconn" in name` -> `name == "unconn"`) the second .names was called
+   logic-gate_2_instance_0 instead of __vpr__unconn3 *)
+Definition doc_names_unconn : doc := D [
+  ".model top";
+  ".inputs a rx_unconnected";
+  ".outputs y __vpr__unconn3";
+  ".names a rx_unconnected y";
+  "11 1";
+  ".names a y __vpr__unconn3";
+  "1- 1";
+  ".gate INV I=__vpr__unconn3 O=unconn";
+  ".names a unconn";
+  "1 1";
+  ".end" ].
+(* the names of its four instances and their recorded open pins, as the repaired reader gives them *)
+Definition names_unconn_inst_names : list (option str) :=
+  [Some (s2l "y"); Some (s2l "__vpr__unconn3"); Some (s2l "INV_instance_0"); Some (s2l "logic-gate_1_instance_0")].
+Definition names_unconn_open : list (list str) := [[]; []; [s2l "O[0]"]; [s2l "out[0]"]].
+Definition pin_rx : pinref := PTop (s2l "rx_unconnected") 0.
+Definition pin_vpr : pinref := PTop (s2l "__vpr__unconn3") 0.
+Definition pin_i0_in1 : pinref := PInst 0 (s2l "in_1") 0.
+Definition pin_i1_out : pinref := PInst 1 (s2l "out") 0.
+Definition pin_i2_I : pinref := PInst 2 (s2l "I") 0.
 End C18Docs2.
 Export C18Docs2.
 
